@@ -271,7 +271,37 @@ def concrete_items(E, s, it):
     return None
 
 
+def unroll_strv(E, stmt, st, v):
+    """for ch in <short string of symbolic length>: complete unrolling over its capacity"""
+    out = []
+    frontier = [st]
+    for i in range(len(v.chars)):
+        nxt = []
+        for s in frontier:
+            for s0, more in E.split(s, v.length > i):
+                if not more:
+                    out.extend(E.exec_block(stmt.orelse, s0) if stmt.orelse else [(s0, ("next",))])
+                    continue
+                for s1, fl in E.assign(s0, stmt.target, SStrV([v.chars[i]], z3.IntVal(1))):
+                    if fl[0] != "next":
+                        out.append((s1, fl))
+                        continue
+                    for s2, fl2 in E.exec_block(stmt.body, s1):
+                        if fl2[0] in ("next", "continue"):
+                            nxt.append(s2)
+                        elif fl2[0] == "break":
+                            out.append((s2, ("next",)))
+                        else:
+                            out.append((s2, fl2))
+        frontier = nxt
+    for s in frontier:
+        out.extend(E.exec_block(stmt.orelse, s) if stmt.orelse else [(s, ("next",))])
+    return out
+
+
 def run_for(E, stmt, s, it, spec, ordinal):
+    if isinstance(it, SStrV) and len(it.chars) <= 4:
+        return unroll_strv(E, stmt, s, it)
     items = concrete_items(E, s, it)
     if items is not None and (spec is None or spec.unroll is not None or not spec.invariant) \
             and len(items) <= E.max_const_unroll:
@@ -335,6 +365,7 @@ def cut_for(E, stmt, st, it, spec, ordinal):
     idx = z3.Int(fresh_name(idxname))
     st.assume(z3.And(idx >= 0, idx <= n))
     env = {idxname: SInt(idx), idxname + "_n": mk_int(n)}
+    st.locals["__" + idxname] = SInt(idx)       # visible to invariants of nested loops
     assume_inv(E, st, spec, env)
     snap = heap_snapshot(st)
     out = []
